@@ -231,10 +231,14 @@ class FakeSocket:
         if not self.closed:
             self.closed = True
             self.net.log("close", self.sid)
+            if self.connected:
+                self.net.open_conns -= 1
         if self._io_refs <= 0:
             self._real_close()
 
     def detach(self):
+        if not self.closed and self.connected:
+            self.net.open_conns -= 1
         self.closed = True
         self._real_close()
         return -1
@@ -260,6 +264,8 @@ class Net:
         self._sock_seq = 0
         self.open_now = 0
         self.max_open = 0
+        self.open_conns = 0
+        self.max_open_conns = 0
         self.dials: list = []  # (host, port, timeout, source_address-ish)
         self.gai_calls: list = []
         self.owner_check: typing.Callable | None = None
@@ -272,6 +278,10 @@ class Net:
     def note_open(self, s):
         self.open_now += 1
         self.max_open = max(self.max_open, self.open_now)
+        # connections as their owner sees them: open from connect() until close() is called (the descriptor
+        # itself may live longer while an abandoned response still references its reader)
+        self.open_conns += 1
+        self.max_open_conns = max(self.max_open_conns, self.open_conns)
 
     def note_closed(self, s):
         if s.connected:
